@@ -155,10 +155,10 @@ func genC19(r *Rng, tier string) []Case {
 			ex := []Sx{exchangeInSx(e)}
 			emit("sxg", ex, lenOf("sxg", ex), []string{"plain"})
 		}
-		// signed exchanges (incl. empty payload), header dump, signed message
+		// signed exchanges with a payload in every version, header dump, signed message
 		for i := 0; i < 3; i++ {
 			ver := sxgVersions[i]
-			e := mkExchange(r, ver, exOpts{contentType: true, extraResp: randExtra(r, 2), extraReq: randExtra(r, 1), payloadLen: []int{0, 20, 100}[i]})
+			e := mkExchange(r, ver, exOpts{contentType: true, extraResp: randExtra(r, 2), extraReq: randExtra(r, 1), payloadLen: []int{30, 20, 100}[i]})
 			e.SignatureHeaderValue = "label;sig=*AA==*"
 			ex := []Sx{exchangeInSx(e)}
 			emit("sxg", ex, lenOf("sxg", ex), []string{"plain"})
